@@ -8,6 +8,7 @@ import (
 	"strings"
 
 	"github.com/ipld/go-ipld-prime"
+	"github.com/ipld/go-ipld-prime/datamodel"
 	"github.com/ipld/go-ipld-prime/printer"
 
 	"github.com/ucan-wg/go-ucan/pkg/meta/internal/crypto"
@@ -139,6 +140,10 @@ func (m *Meta) Add(key string, val any) error {
 	node, err := literal.Any(val)
 	if err != nil {
 		return err
+	}
+	// a null can't be read back as a top-level value: the decoders refuse it
+	if node.Kind() == datamodel.Kind_Null {
+		return fmt.Errorf("value for key %q: null is not supported as a top-level value", key)
 	}
 
 	m.Keys = append(m.Keys, key)
